@@ -16,7 +16,9 @@ from vlib import gen_fortran
 
 BATCH = 60
 FFLAGS = ["-O0", "-fimplicit-none", "-fcheck=bounds,do", "-ffpe-trap=invalid,zero",
-          "-fmax-errors=0", "-ffree-line-length-none", "-w"]
+          "-fmax-errors=0", "-ffree-line-length-none", "-w",
+          # make reads of never-assigned locals visible instead of random
+          "-finit-integer=-7777777", "-finit-real=snan"]
 
 
 class Result:
